@@ -187,11 +187,12 @@ type DeadlineCase struct {
 	Backend string `json:"backend"`          // inmem | redis
 	Ms      int    `json:"ms"`               // deadline, from the start of the call
 	Change  int    `json:"change,omitempty"` // >0: the key gets a new version this many ms after the start (before the deadline): the waiter must return nil
+	Idx     int    `json:"idx,omitempty"`    // position inside the batch (part of the key: the cases of a batch run at the same time)
 }
 
 func runDeadline(t vstat.TB, c DeadlineCase) *vstat.Violation {
 	var st kvs.Storage
-	key := fmt.Sprintf("dl-%d-%d", c.Ms, c.Change)
+	key := fmt.Sprintf("dl-%d-%d-%d", c.Idx, c.Ms, c.Change)
 	if c.Backend == "redis" {
 		_, s, err := Redis()
 		if err != nil {
@@ -267,7 +268,7 @@ func TestC07Deadline(t *testing.T) {
 			if rapid.IntRange(0, 3).Draw(rt, "change") == 0 {
 				c.Change = rapid.IntRange(1, c.Ms).Draw(rt, "changeAt")
 			}
-			c.Ms += i // distinct keys inside a batch
+			c.Idx = i
 			batch = append(batch, c)
 		}
 		run(rt, batch)
